@@ -46,6 +46,14 @@ func (a *armoredWriter) Close() error {
 		return errors.New("ArmoredWriter already closed")
 	}
 	a.closed = true
+	if !a.started {
+		// No Write ever happened: the header line is still due, or the
+		// output would not be a valid (empty) armored file.
+		if _, err := io.WriteString(a.dst, Header+"\n"); err != nil {
+			return err
+		}
+		a.started = true
+	}
 	if err := a.encoder.Close(); err != nil {
 		return err
 	}
